@@ -982,6 +982,18 @@ def reduce_minmax(a, which, axis=None):
     if not isinstance(a, Arr):
         a = from_nested(a)
     if axis is not None:
+        ax = int(norm(axis))
+        if a.ndim == 1 and ax in (0, -1):
+            return reduce_minmax(a, which)
+        if a.ndim == 2 and ax == 0 and dim_conc(a.shape[1]):
+            # column-wise extremum: one 1-D reduction per (concrete) column
+            n, r = a.shape[0], a.reader()
+            if dim_conc(n):
+                cols = [reduce_minmax(getitem(a, (slice(None), k)), which) for k in range(a.shape[1])]
+            else:
+                from .relops import extremum
+                cols = [extremum((lambda t, k=k: r((t, k))), n, which) for k in range(a.shape[1])]
+            return from_nested(cols, a.dtype)
         raise EngineError("min/max with axis")
     shape = a.shape
     if not all(dim_conc(d) for d in shape):
